@@ -406,12 +406,14 @@ class Folder:
         if depth > 12:
             raise NotConst("call depth")
         node = fi.node
-        if isinstance(node, ast.AsyncFunctionDef) or fi.is_generator() or fi.decorators or node.args.vararg or node.args.kwarg or node.args.posonlyargs:
+        if isinstance(node, ast.AsyncFunctionDef) or fi.is_generator() or fi.decorators or node.args.kwarg or node.args.posonlyargs:
             raise NotConst(f"call {fi.fq}")
         names = [a.arg for a in node.args.args]
-        if len(args) > len(names):
+        if len(args) > len(names) and not node.args.vararg:
             raise NotConst("too many arguments")
         env: Dict[str, Any] = dict(zip(names, args))
+        if node.args.vararg:
+            env[node.args.vararg.arg] = tuple(args[len(names):])  # *rest collects the surplus positional arguments
         ndef = len(node.args.defaults)
         for i, a in enumerate(names):
             if a in env:
